@@ -32,6 +32,7 @@ type parser struct {
 	N      int
 	mask   []string
 	Depth  int
+	nest   int
 }
 
 func symAtPos(pos scanner.Position, symbol string) *token {
@@ -85,9 +86,6 @@ const maxDepth = 10000
 
 func (p *parser) Expression(rbp int, mask ...string) *token {
 	p.Depth++
-	if p.Depth > maxDepth { // the parser recurses on nesting; Go's stack overflow cannot be recovered
-		panicf("nested too deeply")
-	}
 	tmp := p.mask
 	p.mask = mask
 	tok := p.doExpression(rbp)
@@ -96,7 +94,23 @@ func (p *parser) Expression(rbp int, mask ...string) *token {
 	return tok
 }
 
+// enter counts one level of recursion of the parser (expressions, prefix operators, types); the matching
+// p.nest-- follows the recursive call.  Go's stack overflow cannot be recovered, so the depth is bounded.
+func (p *parser) enter() {
+	p.nest++
+	if p.nest > maxDepth {
+		panicf("nested too deeply")
+	}
+}
+
 func (p *parser) doExpression(rbp int) *token {
+	p.enter()
+	left := p.doExpr(rbp)
+	p.nest--
+	return left
+}
+
+func (p *parser) doExpr(rbp int) *token {
 	t := p.Token
 	p.Next()
 	left := getSymbol(t).Nud(p, t)
